@@ -43,3 +43,48 @@ From JT Require Import model.Sig proofs.SigFacts.
 Theorem C07_signature_roundtrip : forall ps, wf_sig ps -> sig_of_pieces (pieces_of_sig ps) = Some ps.
 Proof. exact signature_roundtrip. Qed.
 Print Assumptions C07_signature_roundtrip.
+
+(* ---------- the wrapper regenerated from the source (gen/StorageSrc.v: src_wrapped_fn, interpreted by model/SL.v) ---------- *)
+From JT Require Import model.SL gen.StorageSrc model.Threads proofs.SLFacts proofs.SLWrapFacts proofs.SLWrapPassFacts.
+
+(* checking on, the call binds: the decorated call hands back exactly the value or exception that wrapped_fn_impl handed back, and
+   wrapped_fn_impl received the caller's args / kwargs objects (`ext` stands for everything outside the wrapper: ANY behaviour) *)
+Theorem C07_wrapper_hands_back_the_impl_result :
+  forall (ext : extern_t) (a k c f p h i : sval) (s s1 s2 : tls) (hv : sval) (s3 s4 : tls) (b : sval) (s5 : tls) (v : sval) (s6 : tls) (d : dict) (s7 : tls) (r : slres) (s8 : tls),
+  ext "config.jaxtyping_disable" [] s = (SRVal (SVBool false), s1) ->
+  ext "getattr" [f; SVStr "__no_type_check__"; SVBool false] s1 = (SRVal (SVBool false), s2) ->
+  ext "wrapped_fn_holder[0]" [] s2 = (SRVal hv, s3) ->
+  ext "getattr" [hv; SVStr "__no_type_check__"; SVBool false] s3 = (SRVal (SVBool false), s4) ->
+  ext "param_signature.bind" [a; k] s4 = (SRVal b, s5) ->
+  ext "bound.apply_defaults" [] s5 = (SRVal v, s6) ->
+  ext "bound.arguments" [] s6 = (SRVal (SVDict d), s7) ->
+  ext "wrapped_fn_impl" [a; k; b; new_frame d] (with_stack s7 (Some (stack_or_nil s7 ++ [new_frame d])%list)) = (r, s8) ->
+  abs_stack s8 <> [] -> exists s' : tls, run_ext ext wrapped_src "wrapped_fn" [a; k; c; f; p; h; i] s = Some (r, s').
+Proof. exact wrapped_fn_hands_back_the_impl_result. Qed.
+Print Assumptions C07_wrapper_hands_back_the_impl_result.
+
+(* a call that does not bind to the signature raises what Signature.bind raised (the ordinary TypeError); nothing else ran *)
+Theorem C07_nonbinding_call_raises_the_bind_error :
+  forall (ext : extern_t) (a k c f p h i : sval) (s s1 s2 : tls) (hv : sval) (s3 s4 : tls) (x : sexn) (s5 : tls),
+  ext "config.jaxtyping_disable" [] s = (SRVal (SVBool false), s1) ->
+  ext "getattr" [f; SVStr "__no_type_check__"; SVBool false] s1 = (SRVal (SVBool false), s2) ->
+  ext "wrapped_fn_holder[0]" [] s2 = (SRVal hv, s3) ->
+  ext "getattr" [hv; SVStr "__no_type_check__"; SVBool false] s3 = (SRVal (SVBool false), s4) ->
+  ext "param_signature.bind" [a; k] s4 = (SRExn x, s5) -> run_ext ext wrapped_src "wrapped_fn" [a; k; c; f; p; h; i] s = Some (SRExn x, s5).
+Proof. exact wrapped_fn_nonbinding_call_raises_the_bind_error. Qed.
+Print Assumptions C07_nonbinding_call_raises_the_bind_error.
+
+(* checking off in any of the three ways: the decorated call IS the plain call of fn on the caller's objects *)
+Theorem C07_wrapper_off_is_the_plain_call :
+  forall (ext : extern_t) (a k c f p h i : sval) (s : tls),
+  (forall s1 : tls, ext "config.jaxtyping_disable" [] s = (SRVal (SVBool true), s1) -> run_ext ext wrapped_src "wrapped_fn" [a; k; c; f; p; h; i] s = Some (ext "fn" [a; k] s1)) /\
+  (forall s1 s2 : tls,
+   ext "config.jaxtyping_disable" [] s = (SRVal (SVBool false), s1) ->
+   ext "getattr" [f; SVStr "__no_type_check__"; SVBool false] s1 = (SRVal (SVBool true), s2) -> run_ext ext wrapped_src "wrapped_fn" [a; k; c; f; p; h; i] s = Some (ext "fn" [a; k] s2)) /\
+  (forall (s1 s2 : tls) (hv : sval) (s3 s4 : tls),
+   ext "config.jaxtyping_disable" [] s = (SRVal (SVBool false), s1) ->
+   ext "getattr" [f; SVStr "__no_type_check__"; SVBool false] s1 = (SRVal (SVBool false), s2) ->
+   ext "wrapped_fn_holder[0]" [] s2 = (SRVal hv, s3) ->
+   ext "getattr" [hv; SVStr "__no_type_check__"; SVBool false] s3 = (SRVal (SVBool true), s4) -> run_ext ext wrapped_src "wrapped_fn" [a; k; c; f; p; h; i] s = Some (ext "fn" [a; k] s4)).
+Proof. exact wrapped_fn_off_is_the_plain_call. Qed.
+Print Assumptions C07_wrapper_off_is_the_plain_call.
